@@ -64,6 +64,7 @@ def run(ctx):
             ctx.issue(f"C06:method-opcode:{name}", f"Builder::{name} emits Op{opname}, not the opcode it is named after",
                       witness={"method": name, "emits": opname, "replay": f"buildrt {name}/... (any arguments): the instruction's opcode is Op{opname}"},
                       found_input=True, kind="oracle")
+        common.wrapper_forwarding(ctx, T)
         explained = bool(diag)
         for n, e in failing:
             ctx.log(f"obligation failed: {n}: {e['msg'][:120]}")
